@@ -85,7 +85,7 @@ def jobs_c02(tier, seed):
         jobs.append(J(f"c02::{n}", features=f, timeout_s=1800, mem_gb=20, expect_gb=5, all_covers=False, min_covers=1,
                       bound="one step from an arbitrary valid parser state: " + b))
     # the documented limits: two of the eight shapes per quick run (rotated by the seed), all in thorough
-    lim = STEP_LIMITS if tier == "thorough" else [STEP_LIMITS[(1 + seed) % 8], STEP_LIMITS[(6 + seed) % 8]]
+    lim = STEP_LIMITS if tier == "thorough" else [STEP_LIMITS[(0 + seed) % 8], STEP_LIMITS[(5 + seed) % 8]]
     for n, b in lim:
         jobs.append(J(f"c02::{n}", features=f, timeout_s=3600, mem_gb=30, expect_gb=16, all_covers=False, min_covers=1,
                       bound="one step from an arbitrary valid parser state: " + b))
